@@ -9,7 +9,7 @@ import json, os, subprocess, sys, glob
 r = sys.argv[1]
 props = {json.loads(l)["id"]: json.loads(l) for l in open("/verif/properties.jsonl")}
 claimed = [c["property_id"] for c in json.load(open("/verif/MANIFEST.json"))["checks"]]
-ordinals = ["An earlier", "A second", "A third", "A fourth", "A fifth", "A sixth", "A seventh", "An eighth", "A ninth", "A tenth"]
+ordinals = ["An earlier", "A second", "A third", "A fourth", "A fifth", "A sixth", "A seventh", "An eighth", "A ninth", "A tenth", "An eleventh", "A twelfth"]
 for pid in claimed:
     p = props[pid]
     wt, out = f"/tmp/wt{r}-{pid}", f"/tmp/seed{r}-{pid}"
